@@ -6,4 +6,5 @@ def run(ctx, rep):
     mod = ctx.mod
     equil.rule_laqgs_table(mod, rep)
     equil.rule_gsequ_codes(mod, rep)
+    equil.rule_gsequ_clip(mod, rep)
     driver.rule_expert_table(mod, rep, "C11")
